@@ -236,8 +236,9 @@ OUTER:
 			}
 		}
 		if treediff.NameFilter != nil {
-			matchedTo := treediff.NameFilter.MatchString(change.To.Name)
-			matchedFrom := treediff.NameFilter.MatchString(change.From.Name)
+			// the absent side of an insertion or a deletion has an empty name which must not be matched
+			matchedTo := change.To.Name != "" && treediff.NameFilter.MatchString(change.To.Name)
+			matchedFrom := change.From.Name != "" && treediff.NameFilter.MatchString(change.From.Name)
 
 			if !matchedTo && !matchedFrom {
 				continue
